@@ -21,6 +21,20 @@ Delaunay triangle/tetrahedral grids, every subdomain (dimension 0..3) of fractur
 immersed, two and three crossing planes) and ``pp.mdg_library`` simplex grids (gmsh), and subgrids of all of these
 from ``pp.partition.extract_subgrid`` (single cell, all cells, every other cell, seeded random unsorted subsets).
 
+Histories (second sweep).  The statement holds for a grid *whenever* it is queried, so every query must agree with the CURRENT
+incidence of the grid object it is asked on -- also when the same object was queried before and modified in place since, and
+also when a copy of it was modified.  The same clauses (``check_grid``) are therefore evaluated along call histories:
+  * query - ``pp.propagate_fracture.propagate_fractures`` (in place: faces of the matrix grid are split, cells/faces appended
+    to the fracture grids, tags rewritten) - query again, for 1..3 propagation steps: the library's own propagation test
+    inputs (2-D one/two fractures, 3-D 2x3x2 and 4x2x2) and coordinate-specified ones (growth to the domain boundary, both
+    tips at once, a kinked extension, 3-D strip/immersed fracture);
+  * ``Grid.copy()`` of every subdomain taken at every stage (before / between / after the steps), the original propagated
+    further, then both the original and every earlier copy queried (each against its own cell_faces);
+  * plain grids: ``h = g.copy()``, ``set_periodic_map`` on one of the two (each coordinate axis, opposite boundary sides),
+    then the OTHER, unmodified grid queried.  (The periodic grid itself is not queried: see META.)
+  * inside ``check_grid``: after ``update_boundary_face_tag`` / ``update_boundary_node_tag`` on a copy, the boundary-face
+    queries of the original are asked again.
+
 Detection power (scratch copy of /repo/src, POREPY_SRC, one mutant at a time; every one gave exit 1 + VIOLATION):
   * grid.py cell_faces_as_dense: rows swapped (positive cells written to row 1)          -> "cell_faces_as_dense: rows = ..."
   * grid.py cell_connection_map: ``np.abs`` on the data dropped (+1*-1 = -1 clipped to 0) -> "cell_connection_map: (a,b) iff ..."
@@ -32,6 +46,10 @@ Detection power (scratch copy of /repo/src, POREPY_SRC, one mutant at a time; ev
   * utils/tags.py all_tags: third tag (domain boundary) dropped from the union             -> "get_all_boundary_faces: exactly the one-cell faces"
   * fracs/split_grid.py: ``tags["fracture_faces"][frac_id] = True`` dropped when faces are duplicated (a dropped tag update)
                                                                                             -> "get_all_boundary_faces" on fractured grids only
+  * grid.py divergence memoised with ``functools.lru_cache`` (key = (grid object, dim))    -> "divergence(1)", "divergence(dim)" on the grids
+    queried again after in-place propagation (history sweep only; no single-query case sees it)
+  * grid.py copy(): ``copy.deepcopy`` -> ``copy.copy`` of the attributes (tag arrays shared) -> "get_all_boundary_faces", "get_boundary_faces",
+    "signs_and_cells_of_boundary_faces" on the copies taken before propagation and on the grid whose copy was made periodic
 """
 from __future__ import annotations
 
@@ -47,10 +65,15 @@ META = {
     "level": "exploration",
     "engine": "sweep",
     "technique": "run-time contract sweep (bounded stand-in for deduction): every connectivity query of Grid compared with its "
-                 "definition on the dense signed cell-face incidence, over plain, fracture-split and extracted grids",
+                 "definition on the dense signed cell-face incidence, over plain, fracture-split and extracted grids, and again along "
+                 "call histories (query, in-place fracture propagation, query; copy, modify one, query the others)",
     "text": "Bounded assurance only: all listed queries agree with the incidence on every enumerated grid (plain 1-3 cells per direction, "
-            "all subdomains of structured and simplex fractured md-grids in 2-D/3-D, extracted subgrids). These contracts are the stubs "
-            "that C17/C39 assume. Periodic boundaries (set_periodic_map) and trace() are not covered.",
+            "all subdomains of structured and simplex fractured md-grids in 2-D/3-D, extracted subgrids), and they agree with the CURRENT "
+            "incidence of the queried object along the enumerated histories: 15 fracture-propagation histories (1-3 in-place steps on "
+            "Cartesian md-grids, 2-D and 3-D) with every subdomain and every earlier Grid.copy() of it re-queried after each step, and "
+            "copy / set_periodic_map on one of the two / query the unmodified one on the plain grids. Only these two in-place modifiers "
+            "are exercised; other ways of editing a grid are not. These contracts are the stubs that C17/C39 assume. The queries of a "
+            "grid that itself carries a periodic map (where the library by design un-tags one-cell faces) and trace() are not covered.",
     "note": "the incidence matrix itself (cell_faces, face_nodes) is the given; expected values are dense numpy; gmsh is used only as a "
             "generator of simplex inputs (scratch files under /var/tmp, removed after the run)",
 }
@@ -163,6 +186,128 @@ def _subsets(nc, rng, quick):
     return [list(s) for s in sorted(subs, key=lambda s: (len(s), s)) if len(s) > 0]
 
 
+# ----------------------------------------------------------------------------- modification histories
+
+# Fracture-propagation histories on pp.meshing.cart_grid md-grids.  ``steps[k][j]`` = the faces of the matrix grid that are
+# split in step k to extend fracture j (order of mdg.subdomains(dim=nd-1)); a face is given either by its index (the inputs of
+# porepy's own propagation tests) or by the coordinates of its centre (the unique two-cell face there).
+_STRIP = [[[0.0, 1.0, 1.0, 0.0], [0.0, 0.0, 3.0, 3.0], [1.0, 1.0, 1.0, 1.0]]]
+_QUARTER = [[[0.0, 0.25, 0.25, 0.0], [0.0, 0.0, 0.5, 0.5], [0.5, 0.5, 0.5, 0.5]]]
+PROPAGATIONS = {
+    "2d-two-6x3": {"fracs": [[[1.0, 2.0], [1.0, 1.0]], [[2.0, 3.0], [2.0, 2.0]]], "nx": [6, 3], "steps": [[[29], []], [[30], [34, 36]]]},
+    "2d-single-5x2": {"fracs": [[[1.0, 2.0], [1.0, 1.0]]], "nx": [5, 2], "steps": [[[19]], [[20]]]},
+    "2d-two-5x3": {"fracs": [[[1.0, 2.0], [1.0, 1.0]], [[2.0, 3.0], [2.0, 2.0]]], "nx": [5, 3], "steps": [[[25], []], [[26], [29, 31]]]},
+    "2d-vertical-9x3": {"fracs": [[[1.0, 1.0], [1.0, 2.0]], [[8.0, 8.0], [1.0, 2.0]]], "nx": [9, 3], "steps": [[[1], [8]], [[49], [55]]]},
+    "2d-two-8x2-from-boundary": {"fracs": [[[0.0, 0.25], [0.5, 0.5]], [[1.75, 2.0], [0.5, 0.5]]], "nx": [8, 2], "physdims": [2.0, 1.0],
+                                 "steps": [[[27], [32]], [[28], [31]], [[29], []]]},
+    "3d-2x3x2-middle-first": {"fracs": _STRIP, "nx": [2, 3, 2], "steps": [[[43]], [[41, 45]]]},
+    "3d-2x3x2-one-by-one": {"fracs": _STRIP, "nx": [2, 3, 2], "steps": [[[41]], [[43]], [[45]]]},
+    "3d-2x3x2-duplicate-target": {"fracs": _STRIP, "nx": [2, 3, 2], "steps": [[[41, 45]], [[43, 43]]]},
+    "3d-4x2x2-two-steps": {"fracs": _QUARTER, "nx": [4, 2, 2], "physdims": [1.0, 1.0, 1.0], "steps": [[[53]], [[54]]]},
+    "3d-4x2x2-one-step": {"fracs": _QUARTER, "nx": [4, 2, 2], "physdims": [1.0, 1.0, 1.0], "steps": [[[53, 54]]]},
+    "2d-grow-to-boundary": {"fracs": [[[1.0, 2.0], [1.0, 1.0]]], "nx": [4, 2], "steps": [[[[2.5, 1.0]]], [[[3.5, 1.0]]], [[[0.5, 1.0]]]]},
+    "2d-both-tips": {"fracs": [[[2.0, 3.0], [1.0, 1.0]]], "nx": [5, 2], "steps": [[[[1.5, 1.0], [3.5, 1.0]]], [[[0.5, 1.0], [4.5, 1.0]]]]},
+    "2d-kink": {"fracs": [[[1.0, 2.0], [1.0, 1.0]]], "nx": [4, 3], "steps": [[[[2.0, 1.5]]], [[[2.0, 2.5]]]]},
+    "3d-grow-strip": {"fracs": [[[1.0, 1.0, 1.0, 1.0], [0.0, 1.0, 1.0, 0.0], [0.0, 0.0, 2.0, 2.0]]], "nx": [2, 3, 2],
+                      "steps": [[[[1.0, 1.5, 0.5]]], [[[1.0, 1.5, 1.5]]], [[[1.0, 2.5, 0.5], [1.0, 2.5, 1.5]]]]},
+    "3d-grow-immersed": {"fracs": [[[1.0, 1.0, 1.0, 1.0], [1.0, 2.0, 2.0, 1.0], [1.0, 1.0, 2.0, 2.0]]], "nx": [2, 3, 3],
+                         "steps": [[[[1.0, 0.5, 1.5]]], [[[1.0, 2.5, 1.5], [1.0, 1.5, 2.5]]], [[[1.0, 1.5, 0.5]]]]},
+}
+
+
+def _faces_at(g, spec):
+    """face indices of the matrix grid from a step specification (indices, or centres of two-cell faces)"""
+    out = []
+    ncell = np.diff(g.cell_faces.tocsr().indptr)
+    for s in spec:
+        if isinstance(s, (int, np.integer)):
+            out.append(int(s))
+            continue
+        x = np.zeros(3)
+        x[: len(s)] = s
+        hit = np.where((np.abs(np.asarray(g.face_centers) - x[:, None]).max(axis=0) < 1e-9) & (ncell == 2))[0]
+        if hit.size != 1:
+            raise ValueError(f"no unique internal face centred at {list(s)}")
+        out.append(int(hit[0]))
+    return np.array(out, dtype=int)
+
+
+def _propagation_cases(pp, name, rng):
+    """Run one propagation history.  The queries are evaluated at the moment a case is produced (the grids are modified in
+    place afterwards).  yields (desc, grid | Exception, bad, history class)"""
+    c = PROPAGATIONS[name]
+    base = {"src": "propagation", "cfg": name}
+    try:
+        with warnings.catch_warnings():
+            warnings.simplefilter("ignore")
+            kw = {"physdims": list(c["physdims"])} if "physdims" in c else {}
+            mdg = pp.meshing.cart_grid([np.array(f, dtype=float) for f in c["fracs"]], np.array(c["nx"]), **kw)
+        sds = list(mdg.subdomains())
+        top = mdg.subdomains(dim=mdg.dim_max())[0]
+        low = mdg.subdomains(dim=mdg.dim_max() - 1)
+    except Exception as e:
+        yield {**base, "stage": 0}, e, None, ""
+        return
+    copies = []  # (stage at which the copy was taken, subdomain index, the copy)
+    for stage in range(len(c["steps"]) + 1):
+        if stage > 0:
+            try:
+                with warnings.catch_warnings():
+                    warnings.simplefilter("ignore")
+                    pp.propagate_fracture.propagate_fractures(mdg, {g: _faces_at(top, s) for g, s in zip(low, c["steps"][stage - 1])})
+            except Exception as e:
+                yield {**base, "stage": stage}, e, None, ""
+                return
+        for i, sd in enumerate(sds):
+            yield ({**base, "stage": stage, "subdomain": i}, sd, check_grid(pp, sd, rng, False),
+                   "queried again after in-place fracture propagation" if stage else "before propagation")
+        copies += [(stage, i, sd.copy()) for i, sd in enumerate(sds)]
+        for j, i, h in copies:
+            yield ({**base, "stage": stage, "subdomain": i, "copied_at": j}, h, check_grid(pp, h, rng, False),
+                   "copy whose original was propagated afterwards" if j < stage else "fresh copy")
+
+
+def _periodic_map(g, axis):
+    """pairs of opposite one-cell faces (min / max side along ``axis``), or None if the two sides do not match in number"""
+    one = np.where(np.diff(g.cell_faces.tocsr().indptr) == 1)[0]
+    if one.size == 0:
+        return None
+    fc = np.asarray(g.face_centers)
+    x = fc[axis, one]
+    tol = 1e-9 * max(1.0, float(np.abs(x).max()))
+    lo, hi = one[x < x.min() + tol], one[x > x.max() - tol]
+    if lo.size == 0 or lo.size != hi.size or np.intersect1d(lo, hi).size:
+        return None
+    rest = [a for a in range(3) if a != axis]
+    lo = lo[np.lexsort(np.round(fc[rest][:, lo], 9))]
+    hi = hi[np.lexsort(np.round(fc[rest][:, hi], 9))]
+    return np.vstack((lo, hi))
+
+
+def _periodic_cases(pp, d, rng):
+    """copy - set_periodic_map on one of the two - query the OTHER one.  yields (desc, grid | Exception | None, bad, history class)"""
+    dim = len(d["n"]) if "n" in d else (len(d["x"]) if "x" in d else len(d["p"]))
+    for axis in range(dim):
+        for modified in ("copy", "original"):
+            desc = {**d, "history": "periodic", "axis": axis, "modified": modified}
+            try:
+                g = build_plain(pp, d)
+                g.compute_geometry()
+                pm = _periodic_map(g, axis)
+                if pm is None:
+                    yield desc, None, None, ""
+                    continue
+                check_grid(pp, g, rng, True)  # the queries before the modification (their results are cases of the first sweep)
+                h = g.copy()
+                (h if modified == "copy" else g).set_periodic_map(pm)
+            except Exception as e:
+                yield desc, e, None, ""
+                continue
+            other = g if modified == "copy" else h
+            yield (desc, other, check_grid(pp, other, rng, modified == "copy"),
+                   "original after set_periodic_map on its copy" if modified == "copy" else "copy after set_periodic_map on the original")
+
+
 # ----------------------------------------------------------------------------- the contract
 
 
@@ -239,6 +384,13 @@ def check_grid(pp, g, rng, fresh):
             got = np.asarray(h.tags[nt])
             if got.shape != (g.num_nodes,) or not np.array_equal(got.astype(bool), exp):
                 bad.append(("update_boundary_node_tag: node tagged iff on a face with that tag", f"{nt}: got {np.where(got)[0].tolist()} expected {np.where(exp)[0].tolist()}"[:600]))
+    # the copy h has been re-tagged: the boundary-face queries of g itself must still agree with g's incidence
+    ok, allb = guard("get_all_boundary_faces", g.get_all_boundary_faces)
+    if ok and not np.array_equal(np.sort(np.asarray(allb)), one):
+        bad.append(("get_all_boundary_faces: exactly the one-cell faces", f"after the tag updates on a copy: got {np.asarray(allb).tolist()} expected {one.tolist()}"[:600]))
+    ok, dom = guard("get_boundary_faces", g.get_boundary_faces)
+    if ok and (not set(np.asarray(dom).tolist()) <= set(one.tolist()) or (fresh and g.dim > 0 and not np.array_equal(np.sort(np.asarray(dom)), one))):
+        bad.append(("get_boundary_faces: the domain_boundary_faces tag, all one-cell faces", f"after the tag updates on a copy: got {np.asarray(dom).tolist()}"[:400]))
     # --- signs_and_cells_of_boundary_faces
     if nf:
         cell_of = np.argmax(A, axis=1)
@@ -339,6 +491,13 @@ def _iter_grids(pp, rng, quick, tmpdir):
                 yield {**d, "subdomain": i, "subset": sub}, sub_of(sd, sub), True, True
 
 
+def _history_cases(pp, rng, quick):
+    for name in PROPAGATIONS:
+        yield from _propagation_cases(pp, name, rng)
+    for d in _plain_descs(rng, quick):
+        yield from _periodic_cases(pp, d, rng)
+
+
 def run(rep):
     import porepy as pp
 
@@ -347,8 +506,14 @@ def run(rep):
                        "Grid.cell_nodes", "Grid.num_cell_nodes", "Grid.divergence", "Grid.__init__ (boundary tags)", "tags.all_face_tags")
     rep.assume("requires: each face has at most one cell of each sign (enforced by the Grid constructor); the incidence matrices are the given",
                "after fracture splitting the standard face tags (domain_boundary / fracture / tip) are those set by porepy's own splitting code; "
-               "the clause checked is the statement's: their union is exactly the set of one-cell faces")
-    rep.trust("gmsh and pp.mdg_library only as generators of simplex fractured inputs")
+               "the clause checked is the statement's: their union is exactly the set of one-cell faces",
+               "histories: 'for any grid' is read as 'for any grid object at any time it is queried': a query issued after an in-place "
+               "modification (propagate_fractures), or on a grid whose copy / original was modified (propagate_fractures, "
+               "set_periodic_map), is specified against that object's own current cell_faces")
+    rep.under_contract("Grid.copy (queries of a grid and of its copy are independent)")
+    rep.trust("gmsh and pp.mdg_library only as generators of simplex fractured inputs",
+              "pp.propagate_fracture.propagate_fractures, Grid.set_periodic_map, Grid.compute_geometry only as producers of modified grids "
+              "(the incidence they leave behind is the given; the face tags they leave behind are checked against it)")
     quick = rep.tier == "quick"
     tmpdir = tempfile.mkdtemp(prefix="verif_c21_", dir="/var/tmp")
     try:
@@ -378,6 +543,36 @@ def run(rep):
                 sw.case(key, nontrivial=nontriv, sample={k: (v if len(repr(v)) < 120 else "...") for k, v in desc.items()})
                 for ob, detail in bad:
                     rep.violation(ob, _grid_class(g, fractured, "subset" in desc), inputs=desc, detail=detail, confirmed=True)
+        with rep.sweep(
+            "connectivity queries vs the current incidence along modification histories",
+            rule="(a) the 15 fracture-propagation histories of PROPAGATIONS (pp.meshing.cart_grid md-grid, 1..3 calls of "
+                 "propagate_fractures): all queries on every subdomain before and after each in-place step, a Grid.copy() of every "
+                 "subdomain taken at every stage and queried at that and every later stage; (b) every plain grid of the first sweep, "
+                 "each coordinate axis whose two boundary sides have equally many faces: copy, set_periodic_map on the copy / on the "
+                 "original, all queries on the other grid; expected values always from the queried object's own current cell_faces; "
+                 "non-trivial = the queried grid or its copy/original was modified after an earlier query (a) or has an internal face (b); "
+                 "distinct by (history, stage, subdomain, stage of copy) / (grid, axis, modified side)",
+            bound="<= 3 propagation steps, Cartesian md-grids <= 27 cells, one or two non-intersecting fractures; plain grids <= 3 cells "
+                  "per direction; set_periodic_map and propagate_fractures are the only in-place modifiers exercised",
+            exhaustive=False,
+        ) as sw:
+            for desc, g, bad, hist in _history_cases(pp, rep.rng, quick):
+                key = repr(sorted((k, repr(v)) for k, v in desc.items()))[:400]
+                if g is None or bad is None and not isinstance(g, Exception):
+                    sw.skip()  # requires: opposite sides match (periodic) / at most one cell of each sign per face
+                    continue
+                if isinstance(g, Exception):
+                    sw.case(key, nontrivial=False)
+                    rep.violation("input construction: porepy builds the enumerated grid", "history " + str(desc.get("history", desc.get("src"))),
+                                  inputs=desc, detail=f"{type(g).__name__}: {g}", confirmed=True)
+                    continue
+                if desc.get("src") == "propagation":
+                    nontriv = desc["stage"] > desc.get("copied_at", 0)
+                else:
+                    nontriv = bool(np.any(np.diff(g.cell_faces.tocsr().indptr) == 2))
+                sw.case(key, nontrivial=nontriv, sample={k: (v if len(repr(v)) < 120 else "...") for k, v in desc.items()})
+                for ob, detail in bad:
+                    rep.violation(ob, f"{g.dim}-d grid, {hist}", inputs=desc, detail=detail, confirmed=True)
     finally:
         shutil.rmtree(tmpdir, ignore_errors=True)
 
@@ -388,6 +583,19 @@ def replay(data):
     import porepy as pp
 
     d = dict(data["inputs"])
+    if d.get("src") == "propagation" or d.get("history") == "periodic":
+        # re-run the whole history and look at the same case
+        if d.get("src") == "propagation":
+            cases = _propagation_cases(pp, d["cfg"], random.Random(0))
+        else:
+            plain = {k: v for k, v in d.items() if k not in ("history", "axis", "modified")}
+            cases = _periodic_cases(pp, plain, random.Random(0))
+        hit = False
+        for desc, g, bad, _ in cases:
+            if desc == d:
+                print("replay:", g if isinstance(g, Exception) else bad)
+                hit = isinstance(g, Exception) if data["obligation"].startswith("input construction") else any(ob == data["obligation"] for ob, _ in (bad or []))
+        return hit
     sub = d.pop("subset", None)
     tmpdir = tempfile.mkdtemp(prefix="verif_c21_", dir="/var/tmp")
     try:
